@@ -150,6 +150,11 @@ func (p *Prog) collectSrcFuncs() {
 						if old, ok := p.parents[cf]; !ok || !p.isAnchorFn(old.Parent()) {
 							p.parents[cf] = mc
 						}
+						// a method value x.m is a closure over a synthetic wrapper
+						// that calls m: looked at like a literal
+						if strings.HasPrefix(cf.Synthetic, "bound method wrapper") {
+							defer add(cf)
+						}
 					}
 				}
 			}
@@ -247,6 +252,24 @@ func Closures(fn *ssa.Function) []*ssa.Function {
 	// literals created through inlined copies of helper bodies
 	for _, a := range fn.InlinedAnonFuncs() {
 		out = append(out, Closures(a)...)
+	}
+	// method values: the synthetic wrappers they close over
+	for _, b := range fn.Blocks {
+		for _, in := range b.Instrs {
+			if mc, ok := in.(*ssa.MakeClosure); ok {
+				if cf, ok := mc.Fn.(*ssa.Function); ok && strings.HasPrefix(cf.Synthetic, "bound method wrapper") {
+					dup := false
+					for _, o := range out {
+						if o == cf {
+							dup = true
+						}
+					}
+					if !dup {
+						out = append(out, Closures(cf)...)
+					}
+				}
+			}
+		}
 	}
 	return out
 }
